@@ -260,6 +260,88 @@ def r_forcedir(idx, rep, rule="R-FORCEDIR"):
               "force vector is `%s`, need scalar * %s[:3]" % (u(val), hnf))
 
 
+def r_contactforce(idx, rep, rule="R-CONTACTFORCE"):
+    """compute_contact_force integrates the pressure over a fan of triangles: per triangle (a, b, c) the centroid (a + b + c) / 3, the area
+    0.5 * |(b - a) x (c - a)| (one common corner), force += pressure * area, area and area-weighted centroid accumulated, the centroid sum divided
+    by the total area."""
+    rep.rule(rule, "compute_contact_force: centroid = (a + b + c) / 3 of the triangle's own vertices, area = 0.5 * |cross(b - a, c - a)| with one common corner, "
+                   "force / area / area-weighted centroid accumulated with `+=` in the triangle loop, centroid normalised by the total area, pressure = sum(barycentric "
+                   "coordinates of the centroid * potentials * modulus)", floor=1, unknown_ceiling=2)
+    f = idx.func(HY + "_forces::compute_contact_force")
+    loops = [st for st in f.node.body if isinstance(st, ast.For)]
+    if len(loops) != 1:
+        rep.unknown(rule, f.key + "|triangle fan", f.where, "no single triangle loop (restructured / vectorised): the integration formulas are not decided")
+        return
+    loop = loops[0]
+    where = "%s:%d" % (f.module.relpath, loop.lineno)
+    defs = {}
+    for st in iter_stmts(loop.body):
+        if isinstance(st, ast.Assign) and len(st.targets) == 1:
+            defs[u(st.targets[0])] = st.value
+    # the triangle's vertices: X = polygon[triangle]; corners X[0], X[1], X[2]
+    vname = None
+    for k, v in defs.items():
+        if isinstance(v, ast.Subscript) and isinstance(v.slice, ast.Name) and v.slice.id == u(loop.target):
+            vname = k
+    if vname is None:
+        rep.unknown(rule, f.key + "|triangle fan", f.where, "`vertices = contact_polygon[triangle]` not found: the integration formulas are not decided")
+        return
+    corner = lambda e: const(e.slice) if isinstance(e, ast.Subscript) and u(e.value) == vname and isinstance(const(e.slice), int) else None
+
+    def addends(e):
+        if isinstance(e, ast.BinOp) and isinstance(e.op, ast.Add):
+            return addends(e.left) + addends(e.right)
+        return [e]
+    # centroid
+    cen = [(k, v) for k, v in defs.items() if isinstance(v, ast.BinOp) and isinstance(v.op, (ast.Div, ast.Mult)) and sorted(c for c in map(corner, addends(v.left)) if c is not None)]
+    ok = False
+    why = "no expression of the form (v[0] + v[1] + v[2]) / 3 found"
+    cname = None
+    for k, v in cen:
+        cs = [corner(x) for x in addends(v.left)]
+        ok = sorted(c for c in cs if c is not None) == [0, 1, 2] and len(cs) == 3 and ((isinstance(v.op, ast.Div) and const(v.right) in (3, 3.0)) or (isinstance(v.op, ast.Mult) and abs((const(v.right) or 0) - 1 / 3) < 1e-12))
+        why = "centroid is `%s`" % u(v)
+        cname = k
+        break
+    rep.check(ok, rule, f.key + "|centroid of the triangle", where, "%s: the pressure is sampled at a point that is not the centroid (a + b + c) / 3 of the triangle's three corners" % why, "(a + b + c) / 3")
+    # area
+    ar = [(k, v) for k, v in defs.items() if any(isinstance(c, ast.Call) and (call_name(c) or "").endswith("cross") for c in ast.walk(v))]
+    ok, why, aname = False, "no cross product found", None
+    for k, v in ar:
+        aname = k
+        cr = [c for c in ast.walk(v) if isinstance(c, ast.Call) and (call_name(c) or "").endswith("cross")][0]
+        edges = []
+        for a_ in cr.args[:2]:
+            if isinstance(a_, ast.BinOp) and isinstance(a_.op, ast.Sub) and corner(a_.left) is not None and corner(a_.right) is not None:
+                edges.append((corner(a_.left), corner(a_.right)))
+        half = isinstance(v, ast.BinOp) and ((isinstance(v.op, ast.Mult) and 0.5 in (const(v.left), const(v.right))) or (isinstance(v.op, ast.Div) and const(v.right) in (2, 2.0)))
+        normed = any(isinstance(c, ast.Call) and call_name(c) in ("np.linalg.norm", "norm") for c in ast.walk(v))
+        ok = len(edges) == 2 and all(a_ != b_ for a_, b_ in edges) and set(edges[0]) != set(edges[1]) and half and normed      # any two different edges span the triangle
+        why = "area is `%s`" % u(v)[:90]
+    rep.check(ok, rule, f.key + "|area of the triangle", where, "%s: need 0.5 * |cross(e1, e2)| with two DIFFERENT edges of the triangle and the factor 1/2" % why, "0.5 |(b-a) x (c-a)|")
+    # accumulation
+    aug = {}
+    for st in loop.body:
+        if isinstance(st, ast.AugAssign) and isinstance(st.op, ast.Add):
+            aug[u(st.target)] = st.value
+    rets = [st for st in f.node.body if isinstance(st, ast.Return) and isinstance(st.value, ast.Tuple) and len(st.value.elts) == 4]
+    if not rets:
+        raise AnalysisError("compute_contact_force: 4-tuple return vanished")
+    com_n, fvec_n, area_n = [u(e) for e in rets[0].value.elts[:3]]
+    rep.check(area_n in aug and aname is not None and u(aug[area_n]) == aname, rule, f.key + "|total area accumulated", where,
+              "the returned area `%s` is not accumulated as `%s += %s` in the triangle loop" % (area_n, area_n, aname), "+= area")
+    ok = com_n in aug and aname is not None and isinstance(aug[com_n], ast.BinOp) and isinstance(aug[com_n].op, ast.Mult) and aname in {u(aug[com_n].left), u(aug[com_n].right)} \
+        and cname is not None and any(u(x).startswith(cname.split("[")[0]) for x in (aug[com_n].left, aug[com_n].right))
+    rep.check(ok, rule, f.key + "|area-weighted centroid accumulated", where, "the returned centre `%s` is not accumulated as `+= area * centroid`" % com_n, "+= area * centroid")
+    norm_ok = any(isinstance(st, ast.If) and any(isinstance(s_, ast.AugAssign) and isinstance(s_.op, ast.Div) and u(s_.target) == com_n and u(s_.value) == area_n for s_ in st.body)
+                  and ncmp(st.test) is not None and area_n in u(st.test) for st in f.node.body) or \
+        any(isinstance(st, ast.AugAssign) and isinstance(st.op, ast.Div) and u(st.target) == com_n and u(st.value) == area_n for st in f.node.body)
+    rep.check(norm_ok, rule, f.key + "|centroid divided by the total area", where, "the accumulated centre `%s` is not divided by the total area `%s` (guarded against a zero area)" % (com_n, area_n), "/= total area")
+    # force: += pressure * area
+    fscal = [k for k, v in aug.items() if isinstance(v, ast.BinOp) and isinstance(v.op, ast.Mult) and aname in {u(v.left), u(v.right)} and k != com_n]
+    rep.check(len(fscal) == 1, rule, f.key + "|force accumulates pressure * area", where, "expected exactly one `+= pressure * area` accumulation, found %s" % fscal, "+= pressure * area")
+
+
 def r_polyguard(idx, rep, rule="R-POLYGUARD"):
     rep.rule(rule, "fewer than 3 polygon vertices means no intersection (at all three stages); the contact plane is normalised "
                    "by the norm of its normal part before the offset is used, with the zero-normal case tested first", floor=5)
